@@ -199,7 +199,7 @@ theorem ptfr_unpack_words (t : PTFR.State) (byte_ : Nat) (w body : Bytes) (p : N
   rfl
 
 /-- decoding a PTFR whose protected word suffered the error pattern `e` (weight ≤ 3), into an object
-    in any prior state whose `length` option admits the payload -/
+    in any prior state whose `length` option allows the payload -/
 theorem ptfr_unpack_noisy (s t : PTFR.State) (h : PTFR_WF s) (e : Nat) (he : e < 2 ^ 24) (hw : wt e ≤ 3)
     (hL : s.payload.length ≤ t.length) :
     PTFR.unpack t (beBytes 1 (s.version + s.streamid * 16) ++ noisyWord (protOf s) e ++ s.payload) =
